@@ -177,4 +177,23 @@ CHECKS = {
         floors={"any": {"evaluations": 20000, "faults_injected": 20000, "faults_in_drop": 2000, "faults_in_clone": 500, "faults_in_repl-next": 500, "lying_iterators": 1000}},
         assumptions=BEHAVIOUR_ASSUMPTIONS + ["exactly one injected panic per execution (a second panic during unwinding aborts by language rule)"],
     ),
+
+    "C04": dict(
+        level="exploration",
+        rule="every ordered pair (vector element type, offered value type) from same-layout families (W8d/W8d2/W8/B8, S16d/S16d2/Q16, P3d/P3, U1d/U1, Z0d/Z0, u64/i64/f64/[u8;8]) incl. each matching pair as control, "
+             "x nine value-source kinds x push/insert at every index x splice with the foreign item at every position x five swap pairings x eleven downcast requests, from every state up to the bound; "
+             "monitors: panic/no panic, typed snapshot before/after, registry (rejected value destroyed exactly once), Option answers, element_typeid/element_layout; non-trivial = every case",
+        runs=[dict(mode="rel", shards=4), dict(mode="dbg", shards=4)],
+        floors={"any": {"evaluations": 5000, "rejections": 3000, "accepted_controls": 1000}},
+        assumptions=BEHAVIOUR_ASSUMPTIONS,
+    ),
+    "C12": dict(
+        level="exploration",
+        rule="every (len, capacity) state up to the bound x every layout (size 0/1/2/3/8/12/16/24/32/64/160, alignment 1..64) x Heap, instrumented backend, Stack<2048>, StackN<8,2048> (+ small odd sizes), the vector written in place at every admissible "
+             "offset (step align_of::<AnyVec>) of a 128-aligned arena for the inline backends; monitors: storage pointer modulo alignment (also empty), address/length arithmetic of as_bytes/as_bytes_mut/spare_bytes_mut/spare_capacity_mut/typed slices, "
+             "byte equality of the byte view and the typed slice, values written into spare capacity + set_len become the new tail; at a misaligned placement no element is accessed; non-trivial = every case",
+        runs=[dict(mode="rel", shards=8), dict(mode="dbg", shards=8, args=["--sub", "light"])],
+        floors={"any": {"evaluations": 10000, "placements_checked": 10000}},
+        assumptions=BEHAVIOUR_ASSUMPTIONS,
+    ),
 }
